@@ -594,18 +594,36 @@ theorem sum_map_length {α} (f : α → Nat) (e : α → Bytes) (vs : List α) (
     simp only [List.map_cons, List.sum_cons, List.flatten_cons, List.length_append]
     rw [h v (by simp), ih (fun x hx => h x (by simp [hx]))]
 
-/-- `encoder.Size` / `encodeSizeX` is exactly the number of bytes `Serialize` writes. -/
-theorem size_eq_length (t : Ty) (v : Val t) (hw : WF t v) : size t v = (enc t v).length := by
+/-- fixed-size byte arrays have their declared length (all a Go value needs for `size = |enc|`; integer
+ranges and maxlen do not matter here) -/
+def ShapeOK : (t : Ty) → Val t → Prop
+  | .bytesN n, v => v.length = n
+  | .array _ t, v => ∀ x ∈ v, ShapeOK t x
+  | .slice _ t, v => ∀ x ∈ v, ShapeOK t x
+  | .pair a b, (x, y) => ShapeOK a x ∧ ShapeOK b y
+  | .omitempty t, v => ShapeOK t v
+  | _, _ => True
+
+theorem wf_shapeOK (t : Ty) (v : Val t) (hw : WF t v) : ShapeOK t v := by
+  induction t with
+  | u8 | u16 | u32 | u64 | i8 | i16 | i32 | i64 | bool | bytes _ | str _ | unit => trivial
+  | bytesN n => exact hw
+  | array n t ih => exact fun x hx => ih x (hw.2 x hx)
+  | slice m t ih => exact fun x hx => ih x (hw.2.2 x hx)
+  | pair a b iha ihb => obtain ⟨x, y⟩ := v; exact ⟨iha x hw.1, ihb y hw.2⟩
+  | omitempty t ih => exact ih v hw
+
+theorem size_eq_length_of_shape (t : Ty) (v : Val t) (hw : ShapeOK t v) : size t v = (enc t v).length := by
   induction t with
   | u8 | u16 | u32 | u64 | i8 | i16 | i32 | i64 => simp [size, enc]
   | bool => simp [size, enc]
-  | bytesN n => simp only [size, enc, WF] at *; omega
-  | array n t ih => simp only [size, enc]; exact sum_map_length _ _ v (fun x hx => ih x (hw.2 x hx))
+  | bytesN n => simp only [size, enc, ShapeOK] at *; omega
+  | array n t ih => simp only [size, enc]; exact sum_map_length _ _ v (fun x hx => ih x (hw x hx))
   | bytes m => simp [size, enc]
   | str m => simp [size, enc]
   | slice m t ih =>
     simp only [size, enc, List.length_append, leBytes_length]
-    rw [sum_map_length _ _ v (fun x hx => ih x (hw.2.2 x hx))]
+    rw [sum_map_length _ _ v (fun x hx => ih x (hw x hx))]
   | unit => simp [size, enc]
   | pair a b iha ihb =>
     obtain ⟨x, y⟩ := v
@@ -615,6 +633,10 @@ theorem size_eq_length (t : Ty) (v : Val t) (hw : WF t v) : size t v = (enc t v)
     split
     · rfl
     · exact ih v hw
+
+/-- `encoder.Size` / `encodeSizeX` is exactly the number of bytes `Serialize` writes. -/
+theorem size_eq_length (t : Ty) (v : Val t) (hw : WF t v) : size t v = (enc t v).length :=
+  size_eq_length_of_shape t v (wf_shapeOK t v hw)
 
 /-! ### decoded values are well formed -/
 
